@@ -12,6 +12,7 @@ use libcnb_data::package_descriptor::{
 };
 use libcnb_data::store::Store;
 use serde_json::{Value, json};
+use std::os::unix::ffi::OsStringExt;
 use std::path::PathBuf;
 
 /// JSON tree (dict / list / {"s": bytes} / int / bool) -> toml value
@@ -115,7 +116,8 @@ pub fn run(case: &Value) -> Value {
                                     pb.working_directory(if pc["d"].is_null() {
                                         WorkingDirectory::App
                                     } else {
-                                        WorkingDirectory::Directory(PathBuf::from(string_of(&pc["d"])))
+                                        // raw bytes: a PathBuf need not be UTF-8 (such a directory cannot be written to TOML)
+                                        WorkingDirectory::Directory(PathBuf::from(std::ffi::OsString::from_vec(bytes_of(&pc["d"]))))
                                     });
                                 }
                                 o => panic!("{o}"),
